@@ -91,7 +91,9 @@ def check_case(name, params, tier, viol):
         else:
             a, b = (ref.mu - 10 * ref.sigma, ref.mu + 10 * ref.sigma) if name == "gauss" else ((ref.low - 1, ref.high + 1) if name == "uniform" else (1e-9, ref.m * math.exp(9 * math.sqrt(math.log(ref.d)))))
             n = 40001
-            xs = np.linspace(a, b, n)
+            # the log-normal density is concentrated near its mode and has a long tail: a geometric grid (a uniform one with 40001 points left a 0.3 % quadrature
+            # error for log_normal(20, 2.5), a false alarm of this check)
+            xs = np.geomspace(1e-6, b, n) if name == "log_normal" else np.linspace(a, b, n)
             if name == "uniform":
                 r1, r2 = RememberAdd(0.0), None
                 r = RememberAdd(a)
@@ -103,8 +105,10 @@ def check_case(name, params, tier, viol):
                 tot = float(np.trapezoid(ys, xs))
                 mean = float(np.trapezoid(ys * xs, xs))
         evals += 1
+        # schulz_zimm with 1 < z <= 2: the density's slope at 0 does not vanish and its values on the integers sum to 1 - z^(z+1) / (12 Gamma(z+1) Mn^2) (known finding)
+        TAGN = "[Mw>=1.5Mn]" if name == "schulz_zimm" and not TAG and params[0] >= 1.5 * params[1] else TAG
         if tot is not None and abs(tot - 1.0) > 2e-4:
-            viol.append({"key": K + ".prob_mw/post[normalised]" + TAG, "clause": "probabilities sum / integrate to 1 over the support", "detail": {"total": tot}, "input": inp})
+            viol.append({"key": K + ".prob_mw/post[normalised]" + TAGN, "clause": "probabilities sum / integrate to 1 over the support", "detail": {"total": tot}, "input": inp})
         if mean is not None and abs(mean - ref.mean) > 0.01 * max(1.0, abs(ref.mean)) + (0.6 if name == "schulz_zimm" else 0):
             viol.append({"key": K + ".prob_mw/post[mean]" + TAG, "clause": "the law has the documented mean", "detail": {"mean": mean, "want": ref.mean}, "input": inp})
         # draws at scripted quantiles
